@@ -506,6 +506,10 @@ func (idx *Index) ModifyBlocks(label uint64, sc SupervoxelChanges) error {
 				}
 				svc, found := idx.Blocks[zyx]
 				if found && svc != nil {
+					if svc.Counts == nil {
+						// a block entry without counts, as decoded from a posted index
+						svc.Counts = make(map[uint64]uint32)
+					}
 					oldsz := svc.Counts[supervoxel]
 					newsz := oldsz
 					if delta < 0 && uint32(-delta) > oldsz {
